@@ -252,7 +252,7 @@ func (e *Engine) Bin(world string, race bool) string {
 
 // ---- sampling
 
-var ops = []string{"echoJSON", "echoJSON", "echoJSONStream", "echoForm", "echoMultipart", "echoStream", "variants", "secure", "secure2", "echoWild", "echoParams", "echoParams"}
+var ops = []string{"echoJSON", "echoJSON", "echoJSONStream", "echoForm", "echoMultipart", "echoStream", "variants", "secure", "secure2", "echoWild", "echoParams", "echoParams", "echoShapes", "echoShapes"}
 var invalids = []string{"pattern", "regexp2", "multipleOf", "maxLength", "enum", "tagpattern"}
 var readers = []string{"bytes", "bytes", "onebyte", "dataerr", "half"}
 var creds = []string{"header", "basic+query", "bearer", "header", "none", "wrong"}
@@ -338,7 +338,7 @@ func sampleCall(rng *rand.Rand, mode Mode) Call {
 		case 8:
 			c.Fault = &Fault{Kind: "method", Arg: []string{"GET", "PUT", "DELETE", "PATCH", "POST", "HEAD"}[rng.Intn(6)]}
 		case 9:
-			c.Fault = &Fault{Kind: "drop-header", Arg: []string{"X-Req", "Content-Type", "X-Api-Key", "Authorization", "Cookie", "X-Len"}[rng.Intn(6)]}
+			c.Fault = &Fault{Kind: "drop-header", Arg: []string{"X-Req", "Content-Type", "X-Api-Key", "Authorization", "Cookie", "X-Len", "X-Num"}[rng.Intn(7)]}
 		case 10:
 			c.Fault = &Fault{Kind: "dup-header", Arg: []string{"X-Req", "Content-Type", "X-Api-Key", "X-Len"}[rng.Intn(4)]}
 		case 11:
@@ -348,7 +348,7 @@ func sampleCall(rng *rand.Rand, mode Mode) Call {
 		case 13:
 			c.Fault = &Fault{Kind: []string{"dup", "replay"}[rng.Intn(2)]}
 		}
-		if (c.Op == "echoJSON" || c.Op == "echoJSONStream" || c.Op == "variants") && rng.Intn(8) == 0 {
+		if (c.Op == "echoJSON" || c.Op == "echoJSONStream" || c.Op == "variants" || c.Op == "echoShapes") && rng.Intn(8) == 0 {
 			// a re-framing intermediary appends to the body: trailing data after a complete JSON document
 			c.Fault = &Fault{Kind: "append", Arg: []string{"}", "]", ",", "\x00", "\ngarbage", "{}", " null", "1", "\"x\"", " \n\t ", "\n", "}}", ":", "x"}[rng.Intn(14)]}
 		}
@@ -608,7 +608,7 @@ func oracleC15(r *CallRecord) []problem {
 		if r.Call.Invalid == "delim" {
 			continue // C01's business
 		}
-		jsonish := r.Call.Op == "echoJSON" || r.Call.Op == "echoJSONStream" || r.Call.Op == "variants" || r.Call.Op == "echoForm" || r.Call.Op == "echoMultipart"
+		jsonish := r.Call.Op == "echoShapes" || r.Call.Op == "echoJSON" || r.Call.Op == "echoJSONStream" || r.Call.Op == "variants" || r.Call.Op == "echoForm" || r.Call.Op == "echoMultipart"
 		switch {
 		case (k == "cut-req" || k == "reset-req") && jsonish:
 			// 400 without a handler call - or, when only bytes without meaning were lost (the tail of a
@@ -628,7 +628,7 @@ func oracleC15(r *CallRecord) []problem {
 			if s.HandlerCalls != 0 || s.Status != 400 {
 				add("a body that fails validation is answered 400 and never reaches the handler", fmt.Sprintf("delivery %d: status %d, handler calls %d", i, s.Status, s.HandlerCalls))
 			}
-		case k == "drop-header" && r.Call.Fault.Arg == "X-Req" && r.Call.Op == "echoJSON":
+		case k == "drop-header" && ((r.Call.Fault.Arg == "X-Req" && r.Call.Op == "echoJSON") || (r.Call.Fault.Arg == "X-Num" && r.Call.Op == "echoShapes")):
 			if s.HandlerCalls != 0 || s.Status != 400 {
 				add("a lost required parameter is answered 400", fmt.Sprintf("delivery %d: status %d, handler calls %d", i, s.Status, s.HandlerCalls))
 			}
